@@ -248,8 +248,10 @@ namespace {
   value_t get_account(call_scope_t& args) { // this gets the name
     account_t& account(args.context<account_t>());
     if (args.has<string>(0)) {
-      account_t * acct = account.parent;
-      for (; acct && acct->parent; acct = acct->parent) ;
+      // Names are looked up from the root; the root account itself (the
+      // total line of the balance report) has no parent to start from.
+      account_t * acct = &account;
+      for (; acct->parent; acct = acct->parent) ;
       if (args[0].is_string())
         return scope_value(acct->find_account(args.get<string>(0), false));
       else if (args[0].is_mask())
